@@ -53,38 +53,42 @@ Proof.
   destruct (ph (thr s t)); auto; destruct H as [f [A [B [D F]]]]; exists f; auto.
 Qed.
 
+Ltac simp_state :=
+  cbn [threads lookup ph got rid set_ph consumed add_consumed set_inflight set_wire set_rlock
+       set_wlock set_closed set_misaligned bump_id upd_thread add_answered fid fown
+       misaligned nsend wire closed knd seqn reached] in *.
+
 Lemma OwnInv_step : forall s l s', Inv s -> OwnInv s -> step s l = Some s' -> OwnInv s'.
 Proof.
-  intros s l s' I O H M' B' u.
+  intros s l s' Iv O H M' B' u.
   assert (M : misaligned s = false).
   { destruct (misaligned s) eqn:E; [|reflexivity]. rewrite (misaligned_mono s l s' H E) in M'. discriminate. }
   assert (B : nsend s < ID_BOUND) by (pose proof (nsend_mono s l s' H); lia).
   pose proof (O M B u) as Hu.
-  pose proof (consumed_mono s l s') as CM.
   destruct l; step_inv H;
     try (eapply holds_own_keep; [exact Hu|reflexivity|intros f0 Hf0; exact Hf0]; fail);
     try (cbn in M'; discriminate);
     try congruence.
-  all: unfold holds_own in *; rewrite thr_upd;
+  all: unfold holds_own, thr in *; simp_state;
     match goal with |- context [Nat.eqb ?a ?b] =>
       let E := fresh "E" in destruct (Nat.eqb a b) eqn:E;
       [apply Nat.eqb_eq in E; subst|apply Nat.eqb_neq in E] end;
-    cbn [ph got rid set_ph consumed add_consumed set_inflight set_wire set_rlock set_wlock
-         set_closed set_misaligned bump_id upd_thread add_answered fid fown];
-    try exact I;
-    try (match goal with Hp : ph (thr s ?t) = _ |- _ => rewrite Hp in Hu end);
-    try (destruct (ph (thr s u)); auto; destruct Hu as [f0 [A1 [A2 [A3 A4]]]]; exists f0;
+    simp_state;
+    try exact Logic.I;
+    try (match goal with Hp : ph (lookup _ _) = _ |- _ => rewrite Hp in Hu end);
+    try (match type of Hu with context [ph ?x] => destruct (ph x) end; auto;
+         destruct Hu as [f0 [A1 [A2 [A3 A4]]]]; exists f0;
          repeat split; auto; try (apply in_or_app; left; exact A4); fail);
     try (destruct Hu as [f0 [A1 [A2 [A3 A4]]]]; exists f0; repeat split; auto; fail).
   (* PeekOwn by u itself: the head frame is the one produced for u *)
   exists f. apply andb_prop in Heqb. destruct Heqb as [_ Ef]. apply Z.eqb_eq in Ef.
   repeat split; auto.
   - assert (Hf : In f (consumed s ++ wire s)) by (apply in_or_app; right; rewrite Heql; left; reflexivity).
-    destruct (i_frames s I f Hf) as [R [Ei _]].
+    destruct (i_frames s Iv f Hf) as [R [Ei _]].
     apply (ids_distinct s); auto.
     + apply presend_false_of_reached; auto.
-    + rewrite Heqp. reflexivity.
-    + congruence.
+    + unfold thr. rewrite Heqp. reflexivity.
+    + unfold thr in *. congruence.
   - apply in_or_app. right. left. reflexivity.
 Qed.
 
@@ -129,21 +133,22 @@ Lemma abandon_step : forall s l s', step s l = Some s' ->
 Proof.
   intros s l s' H A u. pose proof (A u) as Hu. pose proof (closed_mono s l s' H) as CM.
   unfold abandon_closed in *.
-  destruct l; step_inv H; rewrite ?thr_upd;
+  destruct l; step_inv H; unfold thr in *; simp_state;
     try match goal with |- context [Nat.eqb ?a ?b] =>
       let E := fresh "E" in destruct (Nat.eqb a b) eqn:E;
       [apply Nat.eqb_eq in E; subst|apply Nat.eqb_neq in E] end;
-    cbn in *; auto;
-    try (destruct (ph (thr s u)) as [| | | | | | | |[]]; auto; fail);
-    try (match goal with Hp : ph (thr s ?t) = _ |- _ => rewrite Hp in * end; cbn; auto; fail);
-    try (intros Hk; match goal with Hk' : knd _ = _ |- _ => rewrite Hk' in *; cbn in *; congruence end).
+    simp_state; auto;
+    try (match type of Hu with context [ph ?x] => destruct (ph x) as [| | | | | | | |[]] end; auto; fail);
+    try (intros Hk; match goal with Hk' : knd _ = _ |- _ => rewrite Hk' in *; cbn in *; congruence end);
+    try (intros Hk; match goal with Hc : closes_on_fatal ?k = false |- _ =>
+           destruct k; cbn in Hc; congruence end).
 Qed.
 
 Lemma conn_abandon_closes : forall ls s, run init ls = Some s -> forall t, abandon_closed s t.
 Proof.
   intros ls s H. eapply (inv_run (fun x => forall t, abandon_closed x t)); [| |exact H].
   - intros x l x' A St. eapply abandon_step; eauto.
-  - intros t. unfold abandon_closed. cbn. exact I.
+  - intros t. unfold abandon_closed, thr. cbn. exact Logic.I.
 Qed.
 
 (* ---- once closed, nothing new arrives and only what had arrived can be consumed ---- *)
@@ -156,8 +161,8 @@ Proof.
   destruct l; step_inv H; cbn; repeat split; intros; auto;
     try contradiction;
     try (rewrite C in *; cbn in *; rewrite ?andb_false_r in *; discriminate).
-  - right; assumption.
-  - apply in_app_or in H. destruct H as [H|[H|[]]]; [left; exact H|right; left; exact H].
+  all: repeat match goal with E : wire _ = _ |- _ => rewrite E in * end; cbn in *; auto.
+  match goal with H : In _ (_ ++ _) |- _ => apply in_app_or in H; destruct H as [H|[H|[]]]; auto end.
 Qed.
 
 Lemma conn_closed_final : forall ls s s', closed s = true -> run s ls = Some s' ->
